@@ -35,6 +35,29 @@ pub fn panic_class(msg: &str) -> u32 {
     for (k, c) in table.iter() { if msg.contains(k) { return 1000 + *c; } }
     1999
 }
+/// the case sink of every stream of this module: Coq file Run/Mesh.v, runner module `Mesh` (f64 build) or `Meshf32` (the same
+/// runner text instantiated on the binary32 number instance, for the build with `--features float`)
+fn mesh_sink(out: &str, shard: usize) -> Sink {
+    #[allow(unused_mut)]
+    let mut sink = Sink::new(out, "Mesh", shard);
+    // f32 build: `Meshf32` executes on the fast binary32 instance (Run/FastNum32.v); with the stream argument `--ref32` the cases go
+    // to `Meshf32ref`, the reference instance whose rounding is Flocq's (about 1000 times slower: a few cases only)
+    #[cfg(feature = "float")]
+    { sink.runner = if REF32.load(std::sync::atomic::Ordering::Relaxed) { "Meshf32ref" } else { "Meshf32" }.to_string(); }
+    sink
+}
+static REF32: std::sync::atomic::AtomicBool = std::sync::atomic::AtomicBool::new(false);
+/// `"f32":true,` in the JSON of a case produced by the f32 build (the bit patterns are then 32-bit ones)
+fn f32_json() -> &'static str { if cfg!(feature = "float") { "\"f32\":true," } else { "" } }
+/// The plane of a generated polygon.  f64 build: `Frame::random` as it is.  f32 build (finding F15: the crate's absolute 1e-7
+/// coplanarity tolerance is below binary32 rounding noise at metre scale, so oblique outlines are refused by `Loop3D::push`):
+/// 75% coordinate planes, 10% exactly diagonal planes, 10% right-angle rotations through the crate's own Transform, 5% oblique
+/// (kept to measure the refusal rate); offsets capped at 8 so that the coordinate noise stays near 1e-6.
+fn frame_for(r: &mut Rng, offset: f64) -> Frame {
+    if !cfg!(feature = "float") { return Frame::random(r, offset); }
+    let want: u8 = match r.below(20) { 0..=14 => 0, 15 | 16 => 3, 17 | 18 => 2, _ => 1 };
+    loop { let fr = Frame::random(r, offset.min(8.0)); if fr.kind == want { return fr; } }
+}
 fn short_msg(m: &str) -> String {
     m.chars().filter(|c| *c != '"' && *c != '\\' && *c != '\n' && *c != '\t').take(120).collect()
 }
@@ -93,6 +116,9 @@ fn seg_dist2(a: P2, b: P2, c: P2, d: P2) -> f64 {
     let ds = [dist_to_outline(&[c, d], a), dist_to_outline(&[c, d], b), dist_to_outline(&[a, b], c), dist_to_outline(&[a, b], d)];
     ds.iter().cloned().fold(f64::MAX, f64::min)
 }
+/// two candidate bridges whose squared lengths agree within this relative amount make the crate's choice rounding-dependent
+/// (the f32 build computes the distances with a relative noise of 1e-7)
+const TIE: f64 = if cfg!(feature = "float") { 1e-5 } else { 1e-9 };
 /// emulates the nearest-vertex bridge selection of get_closed_loop and tells whether every bridge is unobstructed
 fn bridges_ok(outer: &[P2], holes: &[Vec<P2>], tol: f64) -> bool {
     let mut cur: Vec<P2> = outer.to_vec();
@@ -115,7 +141,7 @@ fn bridges_ok(outer: &[P2], holes: &[Vec<P2>], tol: f64) -> bool {
         // a second vertex at (nearly) the same distance makes the choice rounding-dependent
         let mut ties = 0;
         for e in cur.iter() { for (k2, h) in holes.iter().enumerate() { if done[k2] { continue; }
-            for v in h.iter() { let d = (e.0 - v.0).powi(2) + (e.1 - v.1).powi(2); if (d - best.0).abs() <= 1e-9 * (1.0 + best.0) { ties += 1; } } } }
+            for v in h.iter() { let d = (e.0 - v.0).powi(2) + (e.1 - v.1).powi(2); if (d - best.0).abs() <= TIE * (1.0 + best.0) { ties += 1; } } } }
         if ties > 1 { return false; }
         done[k] = true;
         let mut nxt = cur[..=j].to_vec(); let m = holes[k].len();
@@ -164,7 +190,7 @@ fn cocircular_outline(r: &mut Rng) -> (Vec<P2>, &'static str) {
     (vec![p(2), (q.0 * s, q.1 * s), (0.0, 0.0), p(0), p(1)], "cocircular")
 }
 pub fn rand_polycase(r: &mut Rng, nmax: usize, max_holes: usize, size_cap: f64, offset: f64) -> PolyCase {
-    let fr = Frame::random(r, offset);
+    let fr = frame_for(r, offset);
     let (mut poly, fam) = if r.chance(0.12) { lattice_outline(r) } else if r.chance(0.08) { cocircular_outline(r) } else { simple_polygon(r, nmax) };
     // rescale when a size cap is requested (refinement streams)
     let ext = poly.iter().fold(0.0f64, |m, p| m.max(p.0.abs()).max(p.1.abs()));
@@ -231,7 +257,7 @@ fn poly_json(pc_outer: &[Point3D], pc_holes: &[Vec<Point3D>], p: Option<&Polygon
     let (po, ph) = match p {
         Some(p) => (pts_json(p.outer().vertices()), format!("[{}]", (0..p.n_inner_loops()).map(|i| pts_json(p.inner(i).unwrap().vertices())).collect::<Vec<_>>().join(","))),
         None => ("[]".into(), "[]".into()) };
-    format!("\"outer\":{},\"holes\":{},\"pouter\":{},\"pholes\":{},\"parea\":{},\"pnormal\":{}", pts_json(pc_outer), holes_json(pc_holes), po, ph, area, nrm)
+    format!("{}\"outer\":{},\"holes\":{},\"pouter\":{},\"pholes\":{},\"parea\":{},\"pnormal\":{}", f32_json(), pts_json(pc_outer), holes_json(pc_holes), po, ph, area, nrm)
 }
 
 /// runs `f` in a thread with a large stack (refine is recursive) and a time limit
@@ -293,7 +319,8 @@ fn aligned_chord_corpus(r: &mut Rng) -> Vec<PolyCase> {
 }
 pub fn run_fp(seed: u64, n: usize, out: &str, salt: u64) {
     let mut r = Rng::new(seed ^ salt);
-    let mut sink = Sink::new(out, "Mesh", 4);
+    // (cases for the reference binary32 instance take ~25 s of model time each: one per file, so that they run in parallel)
+    let mut sink = mesh_sink(out, if REF32.load(std::sync::atomic::Ordering::Relaxed) { 1 } else { 4 });
     if n >= 90 { for pc in aligned_chord_corpus(&mut r) { fp_case(&pc, &mut sink); } }
     while sink.len() < n {
         let big = r.chance(0.25);
@@ -343,7 +370,7 @@ fn rf_case(pc: &PolyCase, max_area: Float, max_ar: Float, model_limit: usize, se
 }
 pub fn run_rf(seed: u64, n: usize, out: &str, salt: u64, extra: &[String]) {
     let mut r = Rng::new(seed ^ salt);
-    let mut sink = Sink::new(out, "Mesh", 1);
+    let mut sink = mesh_sink(out, 1);
     // extra: [model_limit, kmax, size_cap]
     let model_limit: usize = extra.get(0).and_then(|s| s.parse().ok()).unwrap_or(150);
     let kmax: f64 = extra.get(1).and_then(|s| s.parse().ok()).unwrap_or(60.0);
@@ -568,7 +595,7 @@ fn total_area(pc: &PolyCase) -> f64 { area2(&pc.outer2).abs() - pc.holes2.iter()
 pub fn run_hist(seed: u64, n: usize, out: &str, extra: &[String]) {
     let mut r = Rng::new(seed ^ 0xC08);
     let depth: usize = extra.get(0).and_then(|s| s.parse().ok()).unwrap_or(2);
-    let mut sink = Sink::new(out, "Mesh", 25);
+    let mut sink = mesh_sink(out, 25);
     // enumerate paths per shape; a path that is extended is subsumed by its extensions: only maximal paths are emitted
     let mut leaves: Vec<(usize, u64, Vec<(Op, String)>)> = vec![];   // (shape index, rng state to rebuild the shape, path)
     for k in 0..7 {
@@ -608,7 +635,7 @@ pub fn run_hist(seed: u64, n: usize, out: &str, extra: &[String]) {
 pub fn run_rand(seed: u64, n: usize, out: &str, extra: &[String]) {
     let mut r = Rng::new(seed ^ 0xC08A);
     let maxlen: usize = extra.get(0).and_then(|s| s.parse().ok()).unwrap_or(120);
-    let mut sink = Sink::new(out, "Mesh", 1);
+    let mut sink = mesh_sink(out, 1);
     while sink.len() < n {
         let pc = if r.chance(0.8) { let k = r.below(7) as usize; shape_case(k, &mut r) } else { rand_polycase(&mut r, 8, 1, 3.0, 100.0) };
         let p = match build_polygon(&pc.outer, &pc.holes) { Ok(p) => p, Err(_) => { emit_hist(&pc, &[], &pc.note, &mut sink); continue } };
@@ -658,7 +685,8 @@ pub fn run_rand(seed: u64, n: usize, out: &str, extra: &[String]) {
 // dispatch + replay
 // ---------------------------------------------------------------------------------------------
 pub fn run(name: &str, seed: u64, n: usize, out: &str, extra: &[String]) {
-    let extra: Vec<String> = extra.iter().filter(|s| s.as_str() != "--nocoq").cloned().collect();
+    if extra.iter().any(|s| s.as_str() == "--ref32") { REF32.store(true, std::sync::atomic::Ordering::Relaxed); }
+    let extra: Vec<String> = extra.iter().filter(|s| s.as_str() != "--nocoq" && s.as_str() != "--ref32").cloned().collect();
     match name {
         "C01mesh" => run_fp(seed, n, out, 0xC01),
         "C09mesh" => run_fp(seed, n, out, 0xC09),
@@ -681,7 +709,7 @@ pub fn replay(args: &[String]) {
     let outer = pts_from_bits(&args[1]);
     let holes: Vec<Vec<Point3D>> = args[2].split(';').filter(|x| !x.is_empty()).map(pts_from_bits).collect();
     let pc = PolyCase { outer, holes, note: "replay".into(), bridge_ok: true, outer2: vec![], holes2: vec![], fr: Frame::xy() };
-    let mut sink = Sink::new("/dev/null", "Mesh", 1);
+    let mut sink = mesh_sink("/dev/null", 1);
     match kind {
         "fp" => fp_case(&pc, &mut sink),
         "rf" => { let a = Float::from_bits(args[3].parse().unwrap()); let m = Float::from_bits(args[4].parse().unwrap()); rf_case(&pc, a, m, 0, 120, &mut sink) }
